@@ -7,10 +7,12 @@ FILE_PROPS = {
     "mingus/core/notes.py": ["C01"], "mingus/core/intervals.py": ["C02", "C03"], "mingus/core/keys.py": ["C04"],
     "mingus/core/scales.py": ["C05"], "mingus/core/chords.py": ["C06", "C07", "C08"], "mingus/core/value.py": ["C09"],
     "mingus/core/meter.py": ["C09"], "mingus/core/progressions.py": ["C08"], "mingus/containers/note.py": ["C10", "C11"],
-    "mingus/containers/note_container.py": ["C12"], "mingus/containers/bar.py": ["C13"],
-    "mingus/containers/instrument.py": ["C14"], "mingus/midi/midi_track.py": ["C16"], "mingus/midi/midi_file_in.py": ["C17"],
-    "mingus/midi/sequencer.py": ["C18"], "mingus/midi/sequencer_observer.py": ["C18"], "mingus/extra/lilypond.py": ["C19"],
-    "mingus/extra/tunings.py": ["C20"],
+    "mingus/containers/note_container.py": ["C12", "C11"], "mingus/containers/bar.py": ["C13", "C11"],
+    "mingus/containers/track.py": ["C14", "C11"], "mingus/containers/composition.py": ["C14"],
+    "mingus/containers/instrument.py": ["C14"], "mingus/midi/midi_track.py": ["C16"], "mingus/midi/midi_file_out.py": ["C16"],
+    "mingus/midi/midi_file_in.py": ["C17"], "mingus/midi/sequencer.py": ["C18"], "mingus/midi/sequencer_observer.py": ["C18"],
+    "mingus/extra/lilypond.py": ["C19"], "mingus/extra/musicxml.py": ["C19"], "mingus/extra/tunings.py": ["C20"],
+    "mingus/extra/tablature.py": ["C20"],
 }
 
 
